@@ -140,6 +140,13 @@ type RunRec struct {
 	LifeMs    int64    `json:"life_ms"` // from the start of the process to (just after) its death
 	Log       string   `json:"log,omitempty"` // tail of the child's log when the start failed
 	PowerLoss string   `json:"power_loss,omitempty"`
+	// three-replica jobs (the life is one of the follower that is killed)
+	Role      string   `json:"role,omitempty"`        // "follower"
+	Applied   uint64   `json:"applied,omitempty"`     // applied index of the isolated follower when Dump was taken
+	History   []OpRec  `json:"history,omitempty"`     // every write sent to the group before Dump was taken (in order)
+	ConvDump  []string `json:"conv_dump,omitempty"`   // what the follower serves once it has caught up (no write in flight)
+	LeadDump  []string `json:"lead_dump,omitempty"`   // what the leader serves at that moment
+	Converged string   `json:"converged,omitempty"`   // yes | died | timeout ...
 }
 
 // ---------- key universe and op generator ----------
@@ -344,6 +351,11 @@ func startChild(self string, cfg childCfg, evlog string, envCrash string, logPat
 	args := []string{"-child", "-dir", cfg.Dir, "-port", strconv.Itoa(cfg.Port), "-engine", cfg.Engine,
 		"-snapcount", strconv.Itoa(cfg.SnapCount), "-segsize", strconv.FormatInt(cfg.SegSize, 10),
 		"-keep", strconv.Itoa(cfg.Keep), "-optfsync=" + strconv.FormatBool(cfg.OptFsync)}
+	if cfg.ID > 0 {
+		args = []string{"-child", "-id", strconv.Itoa(cfg.ID), "-root", cfg.Root, "-port", strconv.Itoa(cfg.Base), "-engine", cfg.Engine,
+			"-snapcount", strconv.Itoa(cfg.SnapCount), "-segsize", strconv.FormatInt(cfg.SegSize, 10),
+			"-keep", strconv.Itoa(cfg.Keep), "-optfsync=" + strconv.FormatBool(cfg.OptFsync), "-blocked=" + strconv.FormatBool(cfg.Blocked)}
+	}
 	cmd := exec.Command(self, args...)
 	cmd.Env = append(os.Environ(), "VERIF_CRASH_LOG="+evlog)
 	if envCrash != "" {
@@ -377,7 +389,7 @@ func startChild(self string, cfg childCfg, evlog string, envCrash string, logPat
 		for sc.Scan() {
 			l := sc.Text()
 			// the server logs to stdout as well: keep them in the log file, forward only control lines
-			if l == "READY" || l == "ARMED" || strings.HasPrefix(l, "FAIL ") {
+			if l == "READY" || l == "ARMED" || l == "BLOCKED" || strings.HasPrefix(l, "STATUS ") || strings.HasPrefix(l, "FAIL ") {
 				ch.lines <- l
 			} else {
 				lf.WriteString(l + "\n")
@@ -418,16 +430,21 @@ func tailFile(p string, n int) string {
 	return string(b)
 }
 
-func listing(dir string) []string {
+func listing(dir string) []string { return listingOf(dir, 1) }
+
+// listingOf: the names under the namespace directory of replica id; the wal and snap directories carry the replica id
+// in their names, the listing always calls them wal-1 and snap-1
+func listingOf(dir string, id int) []string {
 	var out []string
 	base := filepath.Join(dir, nsName+"-0")
-	for _, sub := range []string{"wal-1", "snap-1", "rocksdb_backup"} {
-		ents, _ := ioutil.ReadDir(filepath.Join(base, sub))
+	sid := strconv.Itoa(id)
+	for _, sub := range [][2]string{{"wal-" + sid, "wal-1"}, {"snap-" + sid, "snap-1"}, {"rocksdb_backup", "rocksdb_backup"}} {
+		ents, _ := ioutil.ReadDir(filepath.Join(base, sub[0]))
 		for _, e := range ents {
-			if sub == "rocksdb_backup" && e.Name() == "remote" {
+			if sub[0] == "rocksdb_backup" && e.Name() == "remote" {
 				continue
 			}
-			out = append(out, sub+"/"+e.Name())
+			out = append(out, sub[1]+"/"+e.Name())
 		}
 	}
 	sort.Strings(out)
@@ -454,6 +471,11 @@ var startPoints = []string{
 	"ps.snapfile.after", "sn.savesnap.after", "ck.save.before",
 }
 
+// points of the incoming-snapshot path (a follower that is behind the leader's compacted log): reached by the
+// three-replica jobs only
+var followerPoints = []string{"rd.savesnap.before", "rd.savesnap.after", "rd.applysnap.before", "rd.applysnap.after", "rd.release.after", "rc.snap.none",
+	"fs.local.ok", "fs.mark.after", "fs.copy.after", "fs.complete.after", "as.prepare.after", "as.raftdone.after", "as.restore.after"}
+
 // AllPoints is every crash point name the harness knows; the check compares it with the names found in the source.
 func AllPoints() []string {
 	m := map[string]bool{}
@@ -464,7 +486,7 @@ func AllPoints() []string {
 		m[p] = true
 	}
 	// follower-only points (incoming snapshot): never reached by a single-replica group
-	for _, p := range []string{"rd.savesnap.before", "rd.savesnap.after", "rd.applysnap.before", "rd.applysnap.after", "rd.release.after", "rc.snap.none"} {
+	for _, p := range followerPoints {
 		m[p] = true
 	}
 	var out []string
@@ -944,6 +966,10 @@ func writeCases(out string, recs []RunRec, keep int) {
 		sort.Slice(runs, func(i, j int) bool { return runs[i].Run < runs[j].Run })
 		// directories with a simulated power loss are outside the path model's crash model (process death):
 		// they are judged by the oracle only
+		if runs[0].Role == "follower" && runs[0].Start != "ready" {
+			// the group could not be started (ports taken, ...): nothing to compare
+			continue
+		}
 		pl := false
 		for _, r := range runs {
 			if strings.HasPrefix(r.Spec, "W:") {
@@ -975,7 +1001,12 @@ func writeCases(out string, recs []RunRec, keep int) {
 				}
 			}
 			rec := "?"
-			if i+1 < len(runs) {
+			if i+1 < len(runs) && runs[i+1].Role == "follower" {
+				// a follower is restarted isolated: what it serves is its log up to the commit index it knew
+				if runs[i+1].Start == "ready" && runs[i+1].Applied > 0 {
+					rec = strconv.FormatUint(runs[i+1].Applied, 10)
+				}
+			} else if i+1 < len(runs) {
 				base, seen := 0, false
 				for _, e := range runs[i+1].Events {
 					f := strings.Fields(e)
@@ -998,7 +1029,11 @@ func writeCases(out string, recs []RunRec, keep int) {
 			}
 			outs = append(outs, fmt.Sprintf("ok:%d L=%s rec=%s", n, ll, rec))
 		}
-		cf.Printf("d%d\tD\t%d,%d,%d\t%s\n", d, keep, keep, of, strings.Join(logs, " | "))
+		kind := "D"
+		if runs[0].Role == "follower" {
+			kind = "F"
+		}
+		cf.Printf("d%d\t%s\t%d,%d,%d\t%s\n", d, kind, keep, keep, of, strings.Join(logs, " | "))
 		io.Printf("d%d\t%s\n", d, strings.Join(outs, " | "))
 	}
 	cf.Close()
